@@ -200,6 +200,7 @@ pub fn check_case(c: &Case, flag_sets: &[&[&str]], st: &mut VStats, fails: &mut 
         let want_fw = !flags.contains(&"backward");
         let want_bw = !flags.contains(&"forward");
         let (fw, bw) = (family(&problems, "forward"), family(&problems, "backward"));
+        if fw.len() + bw.len() != problems.len() { fails.push(Failure { property: "harness", input: what.clone(), detail: format!("problem files are not named forward*/backward*: {:?}", problems.iter().map(|p| p.file.clone()).collect::<Vec<_>>()) }); return; }
         // (a direction without conjectures has no problems; a missing conjecture shows as an unrefuted difference below)
         if (!want_fw && !fw.is_empty()) || (!want_bw && !bw.is_empty()) {
             fails.push(Failure { property: "C02", input: what.clone(), detail: format!("{} forward and {} backward problems emitted", fw.len(), bw.len()) });
